@@ -130,9 +130,123 @@ class Check(HCheck):
 CHECK = Check()
 
 
+# ------------------------------------------------------------------------------ part B
+# "every reachable index state" includes states reached while generator requests are advanced
+# in turns: a most-linked query is interleaved with a crawl batch (engine S), and once all
+# requests have completed the answer of a *fresh* most-linked query on the same object is
+# judged against the page links, as in part A.
+def _s_participants():
+    from ..engine_s import Participant, Query
+
+    P1, P2 = Ab + b"p:1|", Ab + b"p:2|"
+    WE1 = [A, S, Aw, S + b"h:www|"]
+    crawl1 = Participant("crawl1", lambda t: t.index_batch_crawl_iter({Ab: [P1, Az, Ax], Az: [Ab, P1], P1: [Ab]}, 1))
+    crawl2 = Participant("crawl2", lambda t: t.index_batch_crawl_iter({Axy: [Ab, P2], P2: [Ab, Az]}, 1))
+    most = Query("most", lambda t: t.get_webentity_most_linked_pages_iter(1, WE1, pages_count=3), lambda t: None, None)
+    most2 = Query("most2", lambda t: t.get_webentity_most_linked_pages_iter(1, WE1, pages_count=10, max_depth=1), lambda t: None, None)
+    return {"crawl1": crawl1, "crawl2": crawl2, "most": most, "most2": most2}, WE1
+
+
+def _s_oracle(WE1):
+    def oracle(e):
+        out = []
+        if e.error:
+            return [("request-failed", "request %d failed: %s" % e.error, None)]
+        t = e.t
+        pages = [lru for _, lru in t.pages_iter()]
+        sources = collections.defaultdict(set)
+        for p in pages:
+            for s_, tg, wt in t.get_page_links(p, include_inbound=False, include_internal=True, include_outbound=True):
+                sources[tg].add(s_)
+        indeg = {p: len(sources[p]) for p in pages}
+        indeg_known = {p: (v if v else 1) for p, v in indeg.items()}
+        eligible = set()
+        for p in pages:
+            try:
+                if t.retrieve_webentity(p) == 1:
+                    eligible.add(p)
+            except e.w.TraphException:
+                pass
+        for k in (1, 3, 10):
+            ans = t.get_webentity_most_linked_pages(1, WE1, pages_count=k)
+            why = judge(ans, eligible, indeg, k)
+            if why is None:
+                continue
+            if judge(ans, eligible, indeg_known, k) is None:
+                out.append(("unlinked-page-indegree", "after the interleaving, most-linked pages (k=%d): %s" % (k, why), KNOWN_SIG))
+                continue
+            out.append(("top-k-after-interleaving", "after all requests completed, most-linked pages of webentity 1 (k=%d) = %s: %s" % (k, [(L.show(d["lru"]), d["indegree"]) for d in ans], why), None))
+            break
+        e.outcome = tuple(sorted(indeg.items()))
+        return out
+
+    return oracle
+
+
+# (participants, preemption bound quick, thorough); None = unbounded
+S_COMBOS = [(("crawl1", "most"), 3, None), (("crawl2", "most2"), None, None), (("crawl1", "crawl2", "most"), 2, 3)]
+
+
+def _s_work(args):
+    from .. import engine_s, env
+
+    names, bound, backend = args
+    env.load()
+    env.patch_always_yield()
+    parts_, WE1 = _s_participants()
+    parts = [parts_[n] for n in names]
+    for q in parts:
+        if q.is_query:
+            q.atomic = lambda t: None
+    try:
+        stats, viols, known = engine_s.explore(Cfg("domain", backend=backend), al.R2, parts, bound, _s_oracle(WE1), track=None, stop_on_violation=False)
+        return args, stats, viols[:5], known, None
+    except Exception:
+        import traceback
+
+        return args, None, None, None, traceback.format_exc()[-800:]
+
+
 def run(tier, seed, log=print):
-    return run_hcheck(CHECK, tier, seed, log)
+    import multiprocessing
+
+    out = run_hcheck(CHECK, tier, seed, log)
+    if out.violations:
+        return out
+    tasks = [(names, (bq if tier == "quick" else bt), backend) for names, bq, bt in S_COMBOS for backend in ("file", "memory")]
+    total = collections.Counter()
+    with multiprocessing.get_context("fork").Pool(6) as pool:
+        for args, stats, viols, known, err in pool.imap_unordered(_s_work, tasks):
+            if err:
+                out.harness_errors.append("part B (engine S): " + err)
+                continue
+            total["schedules"] += stats["schedules"]
+            total["steps"] += stats["steps"]
+            for sig, (msg, choices, trace) in known.items():
+                out.known.setdefault(sig, (msg, {"engine": "S", "oracle": "unlinked-page-indegree", "tier": tier, "names": list(args[0]), "backend": args[2], "choices": choices}))
+            for v in viols[:1]:
+                out.violations.append({"oracle": v["oracle"], "message": v["message"] + "   [%s back-end; participants %s; schedule %s]" % (args[2], "+".join(args[0]), "".join(map(str, v["trace"]))), "replay": {"engine": "S", "tier": tier, "names": list(args[0]), "backend": args[2], "choices": v["choices"]}})
+    log("  [S] most-linked after interleavings: schedules=%d steps=%d violations=%d" % (total["schedules"], total["steps"], len(out.violations)))
+    out.coverage["interleaved_schedules_then_most_linked_judged"] = total["schedules"]
+    out.coverage["traces_validated_against_impl"] += total["schedules"]
+    out.coverage["engine"] += " | S: crawl batches interleaved with most-linked queries, answer judged after completion"
+    return out
 
 
 def replay(doc):
+    if doc.get("engine") == "S":
+        from .. import engine_s, env
+
+        env.load()
+        env.patch_always_yield()
+        parts_, WE1 = _s_participants()
+        parts = [parts_[n] for n in doc["names"]]
+        for q in parts:
+            if q.is_query:
+                q.atomic = lambda t: None
+        e, choices, points = engine_s.run_schedule(Cfg("domain", backend=doc["backend"]), al.R2, parts, doc["choices"])
+        try:
+            return _s_oracle(WE1)(e)
+        finally:
+            e.close()
     return replay_hcheck(CHECK, doc)
